@@ -54,8 +54,8 @@ known("C01", "C01-id-aliased", ["id-aliased"], r"^errors: could not find the id 
       "when the client aliases `id` the planner adds no helper id and the executor cannot find the id", witness="{ n1s { a: id phone } }")
 known("C01", "C01-id-with-hash", ["data-id-hash"], r"^errors: could not find id in path$",
       "entity ids containing '#' break the insertion-point encoding field:index#id (executor/point_data.go splits on '#')", witness="ids like N1#1")
-known("C01", "C01-abstract-fragment-inside-object", ["frag-abstract-inside-object"], r"^diff:EXTRA __typename$",
-      "an inline fragment on an interface inside an object selection leaks the injected __typename", witness="{ n1s { ... on Node { id } } }")
+fixed("C01", "C01-abstract-fragment-inside-object", "0a0fc43", "{ n1s { ... on Node { id } } } and { leafs { ... on IMid { b } } }: the __typename the planner injects into a fragment on an interface or union was registered for scrubbing under the abstract type name only and leaked into the answer")
+fixed("C01", "C01-mixed-union-list-not-stitched", "b3a82f6", "{ us { ... on N1 { calc } } } with us answering [N1, N4, N1]: FindInsertionPoints gave up on the whole list at the first entry without id (a member type the client did not select), no entry was stitched and the field came back empty without an error")
 known("C01", "C01-list-of-lists", ["list-of-lists"], r"^(errors: entry in result wasn't a map|diff:MISSING (<field>|node))$",
       "FindInsertionPoints does not descend into nested lists", witness="{ grid { phone } } with grid: [[N1!]]")
 known("C01", "C01-interface-only-helpers", ["interface-selection-only-helpers"], r"^errors: INVALID SUBREQUEST: Expected \{, found",
@@ -74,9 +74,7 @@ known("C01", "C01-shared-enum-extended", ["shared-enum-extended"], r"^errors: (I
 known("C01", "C01-abstract-fragment-in-interface-field", ["interface-field", "frag-on-abstract"], r"^diff:MISSING (<field>|__typename)$",
       "inside an interface-typed field a fragment on another interface (interface chain) is not expanded to the implementing types; its fields and the requested __typename are dropped",
       witness="{ leafs { __typename ... on IMid { b } } }")
-known("C01", "C01-object-key-reused", ["object-key-reused", "depth>=3"], r"^(diff:(MISSING|EXTRA|VALUE|NULL|LISTLEN|TYPE) |errors: )",
-      "executor.FindSelection looks a path element up by response key depth-first through the whole selection set instead of along the path: when the same key selects objects at two positions (n1s { b { c {p} } c { c {p} } }) child results are stitched to / looked for at the wrong place",
-      witness="{ n1s { b { c { p } } c { c { p } } } } on Wfan")
+fixed("C01", "C01-object-key-reused", "411df3d", "{ n1s { b { c { p } } c { c { p } } } } on Wfan: executor.FindSelection resolved a path element depth-first through the whole selection set, so with one response key selecting objects at two positions child results were stitched to / looked for at the wrong place")
 known("C01", "C01-var-named-id", ["var-named-id"], r"^errors: INVALID SUBREQUEST: Variable \"\$id\" of type \"<x>\" used in position expecting type \"<x>\"\.$",
       "a client variable called id collides with the $id the planner declares for node lookups: the child step declares it once, with the type of the client's use",
       witness="query($id:Int){ n2 { owner { calc(x:$id) } } }")
